@@ -278,7 +278,7 @@ pub fn run_check(id: &str, tier: Tier) -> i32 {
             let meta = CheckMeta {
                 property: "C01",
                 level: "model_checking",
-                rule: "bounded-exhaustive enumeration of Fun programs (FUN-S: every well-typed main body up to a node bound over a small alphabet; FUN-SHADOW: binder kind x inner name x outer name x continuation kind; FUN-LIVE: 0..20 live variables x kind pattern x construct; FUN-LIT/OPS/CMP: boundary literals x placements, 5 operators, 6 comparisons x 5 forms; FUN-DATA: constructor arity 0..8, clause rotations; FUN-CTRL; codata; generated-name lookalikes; FUN-SHADOW across/retype/reuse/rebind; FUN-ARITY: 0..5 entry parameters; FUN-POLY: polymorphic types at two instantiations; FUN-WIDE: xtors with 0..8 parameters) x argument tuples. Every program goes through the real parser, checker, translation, focusing, shrinking, linearization and x86-64 code generator; the printed file is assembled by GNU as, linked with the repository's driver template and io.c, and run as a process; stdout bytes and exit status are compared with the reference machine R-FUN. Distinct = distinct source texts that produced an executable.".into(),
+                rule: "bounded-exhaustive enumeration of Fun programs (FUN-S: every well-typed main body up to a node bound over a small alphabet; FUN-SHADOW: binder kind x inner name x outer name x continuation kind; FUN-LIVE: 0..20 live variables x kind pattern x construct; FUN-LIT/OPS/CMP: boundary literals x placements, 5 operators, 6 comparisons x 5 forms; FUN-DATA: constructor arity 0..8, clause rotations; FUN-CTRL; codata; generated-name lookalikes; FUN-SHADOW across/retype/reuse/rebind; FUN-ARITY: 0..5 entry parameters; FUN-POLY: polymorphic types at two instantiations; FUN-WIDE: xtors with 0..8 parameters) x argument tuples. Every program goes through the real parser, checker, translation, focusing, shrinking, linearization and x86-64 code generator; the printed file is assembled by GNU as, linked with the repository's driver template and io.c, and run as a process; stdout bytes and exit status are compared with the reference machine R-FUN. Distinct = distinct source texts that produced an executable. Every arity is linked against the driver generated without and with an explicit heap size (64 quick; 1, 64, 512 thorough). Later additions: four sibling-binder classes (a binder of one clause used in the next / previous clause), undeclared type names in declarations (whole type and last type argument), every accepted program re-checked with its definitions and with all declarations reversed, receivers that check at any type (goto / exit) excluded from the foreign-destructor classes.".into(),
                 assumptions: vec![
                     "GNU as after a syntax-only NASM->GAS transliteration stands in for yasm (not installed)".into(),
                     "R-FUN is the reading of the source semantics stated in the property (validated on the repository's examples by `vcheck selftest`)".into(),
@@ -394,7 +394,7 @@ pub fn run_check(id: &str, tier: Tier) -> i32 {
             let meta = CheckMeta {
                 property: "C19",
                 level: "exploration",
-                rule: "nine scalable families (sequenced conditionals, nested conditionals, sequenced matches over a 2- and a 3-constructor type, chains of lets over matches, label-induced critical pairs at a 3-constructor type, conditionals inside match clauses, sequenced conditionals at a codata type, matches in call arguments) at every depth k = 1..12 (quick) / 1..16 (thorough) go through the real pipeline; printed size of the Core, focused, shrunk and linearized programs and instruction counts of the x86-64 and AArch64 files must satisfy size(k+1)/size(k) <= 1.5 for k >= 8 and size(kmax) <= 64 * source_size^2. Distinct = distinct (family, depth).".into(),
+                rule: "fifteen scalable families (sequenced conditionals, nested conditionals, sequenced matches over a 2- and a 3-constructor type, chains of lets over matches, label-induced critical pairs at a 3-constructor type, conditionals inside match clauses, sequenced conditionals at a codata type, matches in call arguments, branching scrutinees / receivers / conditions, lets nested on the producer side at a two-destructor codata and a three-constructor data type) and thirty one-hole contexts (lets over if / match / call, clauses, closures, labels with and without branching bodies, enum-like types, a branching let directly followed by each statement kind) applied singly and in all 870 alternating ordered pairs, at every depth k = 1..12 (pairs ..24) (quick) / 1..16 (..32) (thorough) go through the real pipeline; printed size of the Core, focused, shrunk and linearized programs and instruction counts of the x86-64 and AArch64 files must satisfy size(k+1)/size(k) <= 1.5 for k >= 8 and size(kmax) <= 64 * source_size^2. Distinct = distinct (family, depth).".into(),
                 assumptions: vec!["printed length stands for node count".into()],
             };
             finish(&meta, tier, started, rep, Map::new())
